@@ -79,6 +79,9 @@ structure E2E where
   /-- `Model/Link.lean`: the faulty node's tcp session / writer task / reader / node session; the
   link is taken to be down when this model says the session has stopped -/
   lk : Link.S Nat := {}
+  /-- the link is down only according to the model of what the code does when a remote REFERENCE
+  is stopped (`Link.Ev.proxyStopped`): predictions are compared, no property clause is raised -/
+  modelOnly : Bool := false
   pxs : List PX := []
   calls : List CallInfo := []
   settled : Bool := true
@@ -106,6 +109,7 @@ def E2E.remoteNow (e : E2E) : Memb := (Mirror.run {} (syncStream e.l0.keys e.l0 
 
 /-- name of the clause for "the link is down but a remote reference lives on" -/
 def E2E.downClause (e : E2E) (running members accepted : Nat) : List String :=
+  if e.modelOnly then [] else
   match e.fault with
   | some k =>
     if e.link == 2 then
@@ -287,7 +291,7 @@ def stepE2E (e : E2E) (w : List String) (impl : String) : Option (E2E × StepOut
     if impl != "quiet" then some ({ e with settled := false }, { model := "quiet" }) else
     let probes := e.probes.map fun s => if s == 1 then 2 else if s == 3 then 0 else s
     let lk := Link.settle e.lk
-    let link := if e.link == 1 && (e.fault.isNone || !lk.sessUp) then 2 else e.link
+    let link := if e.link == 1 && ((e.fault.isNone && !e.modelOnly) || !lk.sessUp) then 2 else e.link
     let e := { e with lk := lk }
     let stoppedNow := fun (t : Nat) => e.probes[t]? == some 1
     let e := { e with probes := probes, link := link, settled := true }
@@ -402,6 +406,22 @@ def stepE2E (e : E2E) (w : List String) (impl : String) : Option (E2E × StepOut
                  (if stale && e.settled && e.link == 2 then e.downClause 0 (got.filter (·.startsWith "R")).length 0
                   else if stale || missing then ["mirror"] else []),
                nontrivial := got.length > 1, key := some s!"members {k.1 != ""} {impl}" })
+  | ["stopproxy", d, t] =>
+    match parseDir? d, t.toNat? with
+    | some d, some t =>
+      if e.starved d || e.pstate t == 3 || impl == "none" then some (e, { model := "none" }) else
+      if e.pstate t != 0 then some ({ e with settled := false }, { model := impl }) else
+      -- `Model/Link.lean`: the node session fails, every reference of that session stops
+      let lk := Link.run e.lk [.ctl (.spawn [t]), .proxyStopped t]
+      let e := affect e fun _ => true
+      let pxs := e.pxs.map fun (p : PX) => { p with net := p.net.step .cut }
+      some ({ e with pxs := pxs, lk := lk, link := if lk.nodeUp then e.link else 1, modelOnly := true, settled := false },
+            { model := "ok", nontrivial := true })
+    | _, _ => none
+  | ["releaseheld", t] =>
+    t.toNat?.map fun t =>
+      if e.probes[t]?.isNone then (e, { model := "noprobe" }) else
+      ({ e with settled := false }, { model := impl })
   | ["fault", d, kind] =>
     (parseDir? d).map fun _ =>
       let e := affect e fun _ => true
